@@ -356,6 +356,24 @@ fn mean_case(rng: &mut Rng, idx: u64, out: &mut Out) {
     }
 }
 
+/// A nested list of the members; `depth` 1: the plain list, 2: the first `g` members form a
+/// list of their own (a list of lists, as the gradient list of a layer with several kernels),
+/// 3: that inner list is wrapped once more.
+fn nest_deep(members: Vec<Tensor>, depth: usize, g: usize) -> Tensor {
+    if depth <= 1 {
+        return Tensor::nested(members);
+    }
+    let mut members = members;
+    let rest = members.split_off(g.min(members.len()));
+    let mut inner = Tensor::nested(members);
+    for _ in 2..depth {
+        inner = Tensor::nested(vec![inner]);
+    }
+    let mut outer = vec![inner];
+    outer.extend(rest);
+    Tensor::nested(outer)
+}
+
 fn nested_case(rng: &mut Rng, idx: u64, out: &mut Out) {
     let parts = rng.range(1, 4);
     let mut dims_list = Vec::new();
@@ -368,15 +386,19 @@ fn nested_case(rng: &mut Rng, idx: u64, out: &mut Out) {
         b_list.push(values(rng, product(&d), (idx % 2) as usize));
         dims_list.push(d);
     }
-    out.key = format!("nested {:?}", dims_list);
+    // every second case: lists of lists (depth 2 or 3)
+    let depth = if idx % 2 == 1 { 2 + ((idx / 2) % 2) as usize } else { 1 };
+    let g = rng.range(1, parts);
+    out.key = format!("nested {:?} depth {} ({} inner)", dims_list, depth, g);
     out.cover("op_rank", "add/nested".into());
-    let mut t = Tensor::nested(dims_list.iter().zip(a_list.iter()).map(|(d, a)| mk(d, a)).collect());
-    let u = Tensor::nested(dims_list.iter().zip(b_list.iter()).map(|(d, b)| mk(d, b)).collect());
+    out.cover("nesting_depth", depth.to_string());
+    let mut t = nest_deep(dims_list.iter().zip(a_list.iter()).map(|(d, a)| mk(d, a)).collect(), depth, g);
+    let u = nest_deep(dims_list.iter().zip(b_list.iter()).map(|(d, b)| mk(d, b)).collect(), depth, g);
     match guard(|| {
         t.add_inplace(&u);
         t
     }) {
-        Err(m) => out.viol("add:nested:panic", format!("add_inplace on nested tensors panicked: {}", short(&m, 160)), J::Null),
+        Err(m) => out.viol("add:nested:panic", format!("add_inplace on nested tensors (depth {}) panicked: {}", depth, short(&m, 160)), J::Null),
         Ok(t) => {
             let got = flat(&t);
             let want: Vec<f32> = a_list.iter().flatten().zip(b_list.iter().flatten()).map(|(x, y)| x + y).collect();
@@ -437,13 +459,13 @@ fn nested_case(rng: &mut Rng, idx: u64, out: &mut Out) {
     }
     // scalar division of a nested list
     let s = *rng.pick(&[2.0f32, 3.0, 0.5, -4.0]);
-    let mut t = Tensor::nested(dims_list.iter().zip(a_list.iter()).map(|(d, a)| mk(d, a)).collect());
+    let mut t = nest_deep(dims_list.iter().zip(a_list.iter()).map(|(d, a)| mk(d, a)).collect(), depth, g);
     out.cover("op_rank", "div/nested".into());
     match guard(|| {
         t.div_scalar_inplace(s);
         t
     }) {
-        Err(m) => out.viol("div:nested:panic", format!("div_scalar_inplace on nested tensors panicked: {}", short(&m, 160)), J::Null),
+        Err(m) => out.viol("div:nested:panic", format!("div_scalar_inplace on nested tensors (depth {}) panicked: {}", depth, short(&m, 160)), J::Null),
         Ok(t) => {
             let want: Vec<f32> = a_list.iter().flatten().map(|x| x / s).collect();
             if !crate::lib_build::bits_eq(&flat(&t), &want) {
@@ -583,7 +605,7 @@ impl Monitor for C15 {
         vec![("binary", 8000 * k), ("mismatch", 4000 * k), ("scalar", 3000 * k), ("mean", 3000 * k), ("nested", 1500 * k), ("linalg", 2000 * k)]
     }
     fn rule(&self) -> &'static str {
-        "binary: (op in add/sub/mul/hadamard) x (rank 1..4) x (content family: random, special values incl. +-0, denormals, +-MAX, +-inf, NaN, overflowing products, bit-pattern denormals, log-scaled, a dyadic palette {-2,-1,-0.5,0,0.5,1,2}, sorted ramps) on random shapes with extents 1..5: result bit-equal to the IEEE f32 operation performed by the harness (any association for the scaled Hadamard product), bit-identical to the same operation on the numbers laid out as a vector (rank-generic), shape unchanged. mismatch: same ops + mean on operand pairs of different extent or rank (incl. equal element count in another rank): must panic and leave the left operand untouched. scalar: division by scalars incl. 0, tiny, huge + clamp. mean: k = 1..6 others; for k <= 4 every element must be bit-equal to some single-precision evaluation of the mean (any order of the additions, division or reciprocal multiplication, or term-wise division), beyond that within the rounding bound. nested: Nested / NestedOptional add (absent members at equal and at different positions in the two operands), Nested scalar division, nested length mismatch and member-shape mismatch. linalg: outer product (bit-exact), matrix-vector product (f64 with dot-product bound), transpose, hadamard3d. Distinct = distinct (op, rank, shape, family) descriptors."
+        "binary: (op in add/sub/mul/hadamard) x (rank 1..4) x (content family: random, special values incl. +-0, denormals, +-MAX, +-inf, NaN, overflowing products, bit-pattern denormals, log-scaled, a dyadic palette {-2,-1,-0.5,0,0.5,1,2}, sorted ramps) on random shapes with extents 1..5: result bit-equal to the IEEE f32 operation performed by the harness (any association for the scaled Hadamard product), bit-identical to the same operation on the numbers laid out as a vector (rank-generic), shape unchanged. mismatch: same ops + mean on operand pairs of different extent or rank (incl. equal element count in another rank): must panic and leave the left operand untouched. scalar: division by scalars incl. 0, tiny, huge + clamp. mean: k = 1..6 others; for k <= 4 every element must be bit-equal to some single-precision evaluation of the mean (any order of the additions, division or reciprocal multiplication, or term-wise division), beyond that within the rounding bound. nested: Nested / NestedOptional add (absent members at equal and at different positions in the two operands), Nested scalar division, both also on lists of lists (nesting depth 2 and 3 in every second case), nested length mismatch and member-shape mismatch. linalg: outer product (bit-exact), matrix-vector product (f64 with dot-product bound), transpose, hadamard3d. Distinct = distinct (op, rank, shape, family) descriptors."
     }
     fn assumptions(&self) -> Vec<&'static str> {
         vec!["hadamard3d is documented as not validating lengths, so it is only driven with equal shapes", "NaN results (inf-inf, 0*inf) are matched as NaN"]
